@@ -47,7 +47,10 @@ func (s *Server) tagList(repoStr string) http.HandlerFunc {
 		sort.Strings(tl.Tags)
 		n := r.URL.Query().Get("n")
 		if n != "" {
-			if nInt, err := strconv.Atoi(n); err == nil && len(tl.Tags) > nInt {
+			if nInt, err := strconv.Atoi(n); err == nil && nInt <= 0 {
+				// n=0 is a valid request for an empty list, negative values are treated the same
+				tl.Tags = []string{}
+			} else if err == nil && len(tl.Tags) > nInt {
 				tl.Tags = tl.Tags[:nInt]
 				// add next header for pagination
 				next := r.URL
